@@ -274,6 +274,38 @@ def case_river_depth(ctx, rng, N):
     o, oq, ow = (np.asarray(x, dtype=np.float64).ravel() for x in (out, out_q, out_w))
     inside = np.array([N.ds[i] != n for i in range(n)], dtype=bool)
     ctx.count("river_depth:replay-monotone")
+    # river_depth_anti_zs replayed on the implementation: zs2 = zs + 1 m per step to the pit raises the drop of
+    # EVERY link by 1 m (dz' = dz + 1 >= dz, rivdst unchanged), so every cell must use a slope at least as large
+    # and must not get deeper - also the cells that take their slope from upstream through fillnodata. Values
+    # stay quarter metres (exact); a slope that grows at all grows by >= 1/20, far outside rounding of the
+    # power law. Excluded by the theorem's hypothesis: a link whose slope is exactly the in-band nodata -9999.
+    steps = [0] * n
+    for i in range(n):
+        j, k = i, 0
+        while N.ds[j] not in (j, n) and k <= n:
+            j, k = N.ds[j], k + 1
+        steps[i] = k if N.ds[i] != n else 0
+    nd_link = any(N.ds[i] not in (i, n) and rivdst[i] - rivdst[N.ds[i]] >= K4 and
+                  (zs[i] - zs[N.ds[i]] == -9999 * (rivdst[i] - rivdst[N.ds[i]]) or
+                   zs[i] - zs[N.ds[i]] + K4 == -9999 * (rivdst[i] - rivdst[N.ds[i]])) for i in range(n))
+    if not nd_link:
+        zs2 = [zs[i] + K4 * steps[i] for i in range(n)]
+        try:
+            with warnings.catch_warnings():
+                warnings.simplefilter("ignore")
+                out_z = N.flw.river_depth(q, w, zs=f(zs2), rivdst=f(rivdst), **kw)
+        except Exception as e:  # noqa: BLE001
+            ctx.fail(desc, "spec", f"river_depth: raised {type(e).__name__}: {str(e)[:160]} on a valid input (zs + 1 m per link)")
+            return
+        oz = np.asarray(out_z, dtype=np.float64).ravel()
+        ctx.count("river_depth:replay-anti-zs")
+        if inside.any():
+            if not np.all(oz[inside] <= o[inside]):
+                bad = [int(i) for i in np.flatnonzero(inside & ~(oz <= o))[:6]]
+                fs0.append({"kind": "spec", "what": f"river_depth(manning): depth increased when the water-surface drop of every "
+                            f"link was raised by 1 m, at cells {bad} (river_depth_anti_zs)", "impl": o.tolist(),
+                            "impl_zs2": oz.tolist(), "zs2_4": zs2})
+            ctx.count("river_depth:replay-anti-zs-strictly-shallower-cells", int(np.sum(oz[inside] < o[inside])))
     if inside.any():
         if not np.all(o[inside] >= float(min_dph)):
             bad = [int(i) for i in np.flatnonzero(inside & ~(o >= float(min_dph)))[:6]]
